@@ -152,6 +152,18 @@ CHECKS["C05"] = dict(
     technique="TLA+ model checking (TLC) + differential behaviour replay + TLC trace validation",
     design="6/C05")
 
+CHECKS["C10"] = dict(
+    level="model_checking",
+    text="TLC checks the nested inflate loops of img_gzfile.cc over an abstract zlib (its contract) for every member structure, truncation "
+         "point and corrupted unit within the constants: termination under fairness, rejection of damaged streams, complete output "
+         "(single-member requirement; the all-members requirement is evaluated too and its violation predicts the listed known finding); "
+         "a corpus of every container type (incl. catalogue totals whose geometry depends on name hints) is compressed at levels 0/1/6/9 "
+         "with FNAME padding placing the compressed size at 0/1/511 mod 512, and every command is compared between X and X.gz; every "
+         "truncation and one-bit-per-byte corruption of a small .gz is run; TraceGzip.tla judges.",
+    note="zlib is abstracted to its contract; the gzip writer is ours (RFC 1952) on top of Python's raw deflate; multi-member files are a listed known finding.",
+    technique="TLA+ model checking incl. liveness (TLC) + differential behaviour replay + TLC trace validation",
+    design="6/C10")
+
 PENDING_REASON = "check not built yet in this session (work in progress; design in DESIGN.md section 6)"
 
 
